@@ -448,31 +448,37 @@ impl IoLoop {
             HEARTBEAT => self.inner.process_heartbeat_timers()?,
             SET_BLOCKED_TX => match state {
                 ConnectionState::Steady(ch0_slot) => self.handle_set_blocked_tx(ch0_slot)?,
+                // Like a wakeup for a channel we already dropped (see
+                // handle_channel_readable), this can be a still-pending event from the
+                // same poll in which the connection left the steady state; the request
+                // dies with the channel 0 slot and its sender sees the connection is gone.
                 ConnectionState::ServerClosing(_)
                 | ConnectionState::ClientException
-                | ConnectionState::ClientClosed => {
-                    unreachable!("ch0 slot cannot be readable after it is dropped")
-                }
+                | ConnectionState::ClientClosed => (),
             },
             ALLOC_CHANNEL => match &state {
                 ConnectionState::Steady(ch0_slot) => {
                     self.inner.allocate_channel(ch0_slot, &self.poll)?
                 }
+                // Like a wakeup for a channel we already dropped (see
+                // handle_channel_readable), this can be a still-pending event from the
+                // same poll in which the connection left the steady state; the request
+                // dies with the channel 0 slot and its sender sees the connection is gone.
                 ConnectionState::ServerClosing(_)
                 | ConnectionState::ClientException
-                | ConnectionState::ClientClosed => {
-                    unreachable!("ch0 slot cannot be readable after it is dropped")
-                }
+                | ConnectionState::ClientClosed => (),
             },
             Token(0) => match &state {
                 ConnectionState::Steady(ch0_slot) => {
                     self.inner.handle_channel0_readable(ch0_slot)?
                 }
+                // Like a wakeup for a channel we already dropped (see
+                // handle_channel_readable), this can be a still-pending event from the
+                // same poll in which the connection left the steady state; the request
+                // dies with the channel 0 slot and its sender sees the connection is gone.
                 ConnectionState::ServerClosing(_)
                 | ConnectionState::ClientException
-                | ConnectionState::ClientClosed => {
-                    unreachable!("ch0 slot cannot be readable after it is dropped")
-                }
+                | ConnectionState::ClientClosed => (),
             },
             Token(n) if n <= u16::max_value() as usize => {
                 self.inner.handle_channel_readable(n as u16)?
